@@ -1009,6 +1009,20 @@ func (g *gen) heavy(r *core.Rand, elem string, n int, model bool) Case {
 		var v int
 		var ok bool
 		switch y := r.Intn(20); {
+		case y < 5 && n >= 100: // a two-children node within two levels of the root: tall nodes lose their successor
+			if t := g.m.roots[0]; t != nil {
+				for d := r.Intn(3); d > 0; d-- {
+					nx := t.l
+					if r.Bool() {
+						nx = t.r
+					}
+					if nx == nil || nx.l == nil || nx.r == nil {
+						break
+					}
+					t = nx
+				}
+				v, ok = t.v, true
+			}
 		case y < 12:
 			v, ok = g.m.twoChildNode(0, r)
 		case y < 15:
@@ -1030,6 +1044,9 @@ func (g *gen) heavy(r *core.Rand, elem string, n int, model bool) Case {
 		g.observe(0, false)
 	}
 	churn := r.Range(120, 320)
+	if n >= 200 {
+		churn += r.Range(100, 300)
+	}
 	for k := 0; k < churn; k++ {
 		switch x := r.Intn(100); {
 		case x < 40:
@@ -1074,7 +1091,7 @@ func heavyStream(c *core.Ctx) {
 	for rep := 0; rep < mult; rep++ {
 		for _, n := range []int{15, 16, 17, 31, 32, 33, 63, 64, 65, 127, 128, 129, 255, 256, 257, 511, 512, 513,
 			1023, 1024, 1025, 2047, 2048, 2049, 4095, 4096, 4097} {
-			exec(c, newGen(c).heavy(r, "int", n, rep == 0 && (n <= 65 || n == 1024)))
+			exec(c, newGen(c).heavy(r, "int", n, rep == 0 && n <= 129))
 			exec(c, newGen(c).heavy(r, pick(r), n, false))
 			exec(c, newGen(c).heavy(r, oracleElem(), n, false))
 		}
@@ -1082,14 +1099,14 @@ func heavyStream(c *core.Ctx) {
 	// (b) dense coverage of 13..200 nodes: every size several times
 	for i := 0; i < 560*mult; i++ {
 		n := 13 + i%188
-		exec(c, newGen(c).heavy(r, pick(r), n, i%16 == 0))
+		exec(c, newGen(c).heavy(r, pick(r), n, i%20 == 0))
 	}
 	for i := 0; i < 376*mult; i++ {
 		n := 13 + i%188
 		exec(c, newGen(c).heavy(r, oracleElem(), n, false))
 	}
 	// (c) sizes spread log-uniformly over 16..4096
-	for i := 0; i < 40*mult; i++ {
+	for i := 0; i < 90*mult; i++ {
 		n := 16 << uint(r.Intn(8))
 		n += r.Intn(n)
 		e := "int"
